@@ -724,11 +724,15 @@ func (c *converter) Input(prompt string, valueUsed bool) (string, error) {
 }
 
 func (c *converter) Copy(destination string, source string, valueUsed bool, global bool) (string, error) {
+	helper := c.nextHelperVar()
+
 	c.sliceCopyHelperRequired = true
 	c.callFunc(sliceCopyHelper, []string{}, c.varName(destination, global), source)
 
 	c.callFunc(sliceLenGetHelper, []string{}, source) // the number of copied elements
-	return c.varEvaluationString("_len", true), nil
+	c.VarAssignment(helper, c.varEvaluationString("_len", true), false)
+
+	return c.VarEvaluation(helper, valueUsed, false)
 }
 
 func (c *converter) Exists(path string, valueUsed bool) (string, error) {
